@@ -28,6 +28,12 @@
 //!     X           restart                              O      the reporter's purge phase
 //!     Q<s>:<k>    write ACL := [admin, view(subject k)] on session s
 //!     B<s>        SubscribeRequest on session s        P      new PASE session
+//!     e<r> / s<k> like E / S, but the handshake is CAUGHT IN ITS LAST STEP: the network holds back
+//!                 the peer's last message (the acknowledgement of the device's final status report /
+//!                 SigmaFinished), so the device's handshake handler keeps waiting with its reserved
+//!                 slot already switched to `Case { fab_idx }` (one such handshake at a time; while it
+//!                 is pending E / S / e / s answer `busy`)
+//!     D           the held-back message is delivered: the pending handshake runs to completion
 //! Output line: S <id> <status>@<snapshot>;...   (one per op; see `snapshot`)
 //! Other case kinds: H <id> (capacity constants), W <id> <k><p> <ops> (wire probe: like S, but
 //! requests are SENT even if the device has no usable session for them; short MRP intervals).
@@ -252,6 +258,9 @@ enum Op {
     Request(u64, u64),
     Subscribe(u64),
     NewPase,
+    EstablishBegin(usize),
+    ResumeBegin(u64),
+    Finish,
 }
 
 fn parse_op(t: &str) -> Op {
@@ -277,6 +286,9 @@ fn parse_op(t: &str) -> Op {
         'Q' => Op::Request(n(0), n(1)),
         'B' => Op::Subscribe(n(0)),
         'P' => Op::NewPase,
+        'e' => Op::EstablishBegin(n(0) as usize),
+        's' => Op::ResumeBegin(n(0)),
+        'D' => Op::Finish,
         _ => panic!("bad op {}", t),
     }
 }
@@ -798,22 +810,54 @@ async fn case_handshake(ctl: &Matter<'_>, fab: NonZeroU8, peer_node: u64, seed: 
     CaseInitiator::perform(exchange, &crypto, fab, peer_node).await
 }
 
-/// wait until no handshake is in flight any more (the responder finishes after the initiator)
-async fn settle(dev: &Matter<'_>, ctl: &Matter<'_>) {
+/// wait until no handshake is in flight any more (the responder finishes after the initiator).
+/// `pending`: a handshake is being held in its last step on purpose - its reserved slot and the
+/// unsecured session carrying it on the device are not waited for.
+async fn settle(dev: &Matter<'_>, ctl: &Matter<'_>, pending: bool) {
     for _ in 0..4000 {
-        let busy = |m: &Matter<'_>| {
+        let busy = |m: &Matter<'_>, skip: bool| {
             m.with_state(|state| {
                 state.verif_sessions().iter().any(|s| {
                     let snap = s.verif_snapshot();
+                    if skip && (snap.reserved || matches!(snap.mode, SessionMode::PlainText)) {
+                        return false;
+                    }
                     snap.reserved || !snap.exchanges.is_empty()
                 })
             })
         };
-        if !busy(dev) && !busy(ctl) {
+        if !busy(dev, pending) && !busy(ctl, false) {
             return;
         }
         embassy_time::Timer::after(embassy_time::Duration::from_millis(1)).await;
     }
+}
+
+/// What the network does to the handshake being caught: once the device has sent the message
+/// with secure channel opcode `need` to `peer` (its final status report / Sigma2_Resume), everything
+/// `peer` sends to the device on the unsecured session is held back.
+#[derive(Default)]
+struct Hold {
+    armed: bool,
+    peer: u16,
+    need: u32,
+    seen: u32,
+    holding: bool,
+    held: Vec<Vec<u8>>,
+}
+
+type HandshakeFut<'f> = core::pin::Pin<Box<dyn core::future::Future<Output = Option<Result<(), Error>>> + 'f>>;
+
+/// the handshake caught in its last step
+struct Pending<'f> {
+    resume: bool,
+    /// name of the device's reserved slot
+    name: u64,
+    /// the initiator's side, if it has not finished yet
+    fut: Option<HandshakeFut<'f>>,
+    rec_inc: u64,
+    ctl_before: Vec<u32>,
+    ctl_rec: Option<(NonZeroU8, u64)>,
 }
 
 enum Next {
@@ -901,7 +945,36 @@ fn run_incarnation(base: &Base, g: &mut Ghost, blobs: &BTreeMap<u16, Vec<u8>>, o
         }
     }
 
-    let net = Net::reliable();
+    let hold: std::rc::Rc<RefCell<Hold>> = Default::default();
+    let net = {
+        let hold = hold.clone();
+        Net::new(move |src, dst, _idx, bytes| {
+            let mut h = hold.borrow_mut();
+            if h.armed {
+                if src == DEV && dst == h.peer {
+                    // the device's message that ends its part: the final status report (0x40) of a
+                    // full handshake / Sigma2_Resume (0x33), on the unsecured session
+                    if bytes.len() > 3 && bytes[1] == 0 && bytes[2] == 0 {
+                        let off = 8 + if bytes[0] & 0x04 != 0 { 8 } else { 0 } + match bytes[0] & 0x03 { 1 => 8, 2 => 2, _ => 0 };
+                        if bytes.len() > off + 1 {
+                            let opcode = bytes[off + 1] as u32;
+                            if opcode == 0x31 {
+                                h.seen += 1; // Sigma2 of this handshake
+                            }
+                            if opcode == h.need && (h.need != 0x40 || h.seen > 0) {
+                                h.holding = true;
+                            }
+                        }
+                    }
+                } else if src == h.peer && dst == DEV && h.holding && bytes.len() > 3 && bytes[1] == 0 && bytes[2] == 0 {
+                    // (only the unsecured session the handshake runs on: session id 0)
+                    h.held.push(bytes.to_vec());
+                    return e2e::Action::Drop;
+                }
+            }
+            e2e::Action::Deliver
+        })
+    };
     let (d_tx, d_rx) = net.attach(DEV);
     let (c_tx, c_rx) = net.attach(CTL);
     let (c2_tx, c2_rx) = net.attach(CTL2);
@@ -920,6 +993,7 @@ fn run_incarnation(base: &Base, g: &mut Ghost, blobs: &BTreeMap<u16, Vec<u8>>, o
 
         let flow = async {
             let mut i = start;
+            let mut pending: Option<Pending<'_>> = None;
             if first_boot.is_none() {
                 // the state right after the boot completes the observation of the restart step
                 let prev = BTreeMap::new();
@@ -1103,7 +1177,7 @@ fn run_incarnation(base: &Base, g: &mut Ghost, blobs: &BTreeMap<u16, Vec<u8>>, o
                             let r = if wire {
                                 // the device may have dropped or expired the session: no answer comes
                                 let r = e2e::with_timeout(2500, write_acl(cx, sid, *k)).await.unwrap_or_else(|| "err:timeout".to_string());
-                                settle(&dev, &ctl).await;
+                                settle(&dev, &ctl, pending.is_some()).await;
                                 r
                             } else {
                                 write_acl(cx, sid, *k).await
@@ -1135,7 +1209,7 @@ fn run_incarnation(base: &Base, g: &mut Ghost, blobs: &BTreeMap<u16, Vec<u8>>, o
                                     }
                                     embassy_time::Timer::after(embassy_time::Duration::from_millis(1)).await;
                                 }
-                                settle(&dev, &ctl).await;
+                                settle(&dev, &ctl, pending.is_some()).await;
                             }
                             match r {
                                 Ok(()) => {
@@ -1218,6 +1292,11 @@ fn run_incarnation(base: &Base, g: &mut Ghost, blobs: &BTreeMap<u16, Vec<u8>>, o
                             }
                         }
                     }
+                    Op::Establish(_) | Op::Resume(_) | Op::EstablishBegin(_) | Op::ResumeBegin(_) if pending.is_some() => {
+                        // one handshake at a time (a second Sigma1 is not answered while a handler
+                        // of the device is waiting for the first one's peer)
+                        "busy".to_string()
+                    }
                     Op::Establish(r) => {
                         let full = session_ids(&dev).len() >= MAX_SESSIONS;
                         // A Sigma1 that the device refuses keeps its responder waiting for a Sigma3 on
@@ -1236,6 +1315,8 @@ fn run_incarnation(base: &Base, g: &mut Ghost, blobs: &BTreeMap<u16, Vec<u8>>, o
                                 gb.resume_attempts += 1;
                                 gb.resume_attempts
                             };
+                            // (the administrator does a FULL handshake: it forgets its own resumption records)
+                            ctl.with_state(|state| state.resumption.reset());
                             let res = case_handshake(&ctl, NonZeroU8::new(*r as u8 + 1).unwrap(), DEV_NODE + *r as u64, attempt).await;
                             if std::env::var("C07_DEBUG").is_ok() {
                                 eprintln!("establish {}: {:?} at {} ms", r, res.as_ref().map_err(|e| e.code()), net.elapsed_ms());
@@ -1243,7 +1324,7 @@ fn run_incarnation(base: &Base, g: &mut Ghost, blobs: &BTreeMap<u16, Vec<u8>>, o
                                     eprintln!("   {} -> {} len {} at {} ms hdr {:?}", t.src, t.dst, t.bytes.len(), t.t_ms, &t.bytes[..t.bytes.len().min(24)]);
                                 }
                             }
-                            settle(&dev, &ctl).await;
+                            settle(&dev, &ctl, pending.is_some()).await;
                             if std::env::var("C07_DEBUG").is_ok() {
                                 eprintln!("settled at {} ms", net.elapsed_ms());
                             }
@@ -1331,7 +1412,7 @@ fn run_incarnation(base: &Base, g: &mut Ghost, blobs: &BTreeMap<u16, Vec<u8>>, o
                                 let before = session_ids(&ctl2);
                                 let before_dev = session_ids(&dev);
                                 let res = e2e::with_timeout(if wire { 3000 } else { 15000 }, case_handshake(&ctl2, cfab, bogus, attempt)).await;
-                                settle(&dev, &ctl2).await;
+                                settle(&dev, &ctl2, pending.is_some()).await;
                                 remove_plaintext(&dev);
                                 remove_plaintext(&ctl2);
                                 ctl2.with_state(|state| state.resumption.remove_by_peer(cfab, bogus));
@@ -1354,6 +1435,222 @@ fn run_incarnation(base: &Base, g: &mut Ghost, blobs: &BTreeMap<u16, Vec<u8>>, o
                             }
                         }
                     }
+                    Op::EstablishBegin(r) => {
+                        let full = session_ids(&dev).len() >= MAX_SESSIONS;
+                        let known = dev.with_state(|state| state.fabrics.iter().any(|f| f.root_ca() == base.roots[*r].cert.as_slice()));
+                        if full {
+                            "nospace".to_string()
+                        } else if !known {
+                            "nofabric".to_string()
+                        } else {
+                            let before = session_ids(&ctl);
+                            let attempt = {
+                                let mut gb = g.borrow_mut();
+                                gb.resume_attempts += 1;
+                                gb.resume_attempts
+                            };
+                            // Sigma2 and the final status report go out, then the administrator's
+                            // acknowledgement of the latter is held back
+                            *hold.borrow_mut() = Hold { armed: true, peer: CTL, need: 0x40, ..Default::default() };
+                            ctl.with_state(|state| state.resumption.reset());
+                            let res = e2e::with_timeout(5000, case_handshake(&ctl, NonZeroU8::new(*r as u8 + 1).unwrap(), DEV_NODE + *r as u64, attempt)).await;
+                            // the device: slot reserved, already `Case { fab_idx }`, handler waiting
+                            let mut caught = false;
+                            for _ in 0..1000 {
+                                caught = dev.with_state(|state| {
+                                    state.verif_sessions().iter().any(|s| {
+                                        let snap = s.verif_snapshot();
+                                        snap.reserved && matches!(snap.mode, SessionMode::Case { .. })
+                                    })
+                                });
+                                if caught {
+                                    break;
+                                }
+                                embassy_time::Timer::after(embassy_time::Duration::from_millis(1)).await;
+                            }
+                            if std::env::var("C07_DEBUG").is_ok() {
+                                let h = hold.borrow();
+                                eprintln!("establish-begin {}: {:?} caught={} seen={} holding={} held={}", r, res.as_ref().map(|x| x.as_ref().map_err(|e| e.code())), caught, h.seen, h.holding, h.held.len());
+                                for t in net.tap().iter().rev().take(8).rev() {
+                                    eprintln!("   {} -> {} len {} at {} ms hdr {:?}", t.src, t.dst, t.bytes.len(), t.t_ms, &t.bytes[..t.bytes.len().min(24)]);
+                                }
+                            }
+                            match res {
+                                Some(Ok(())) if caught => {
+                                    let after = session_ids(&ctl);
+                                    let name = g.borrow().next_sid;
+                                    if let Some(cid) = after.iter().find(|i| !before.contains(i)) {
+                                        g.borrow_mut().twin.insert(name, (0, *cid));
+                                    }
+                                    pending = Some(Pending { resume: false, name, fut: None, rec_inc: 0, ctl_before: before, ctl_rec: None });
+                                    "ok".to_string()
+                                }
+                                Some(Ok(())) => {
+                                    // the window was missed: the handshake simply completed
+                                    *hold.borrow_mut() = Hold::default();
+                                    settle(&dev, &ctl, false).await;
+                                    remove_plaintext(&dev);
+                                    remove_plaintext(&ctl);
+                                    "missed".to_string()
+                                }
+                                _ => {
+                                    *hold.borrow_mut() = Hold::default();
+                                    settle(&dev, &ctl, false).await;
+                                    remove_plaintext(&dev);
+                                    remove_plaintext(&ctl);
+                                    "nofabric".to_string()
+                                }
+                            }
+                        }
+                    }
+                    Op::ResumeBegin(k) => {
+                        let rec = g.borrow().rec_by_name(*k).cloned();
+                        let full = session_ids(&dev).len() >= MAX_SESSIONS;
+                        let found = rec.as_ref().and_then(|rec| {
+                            dev.with_state(|state| {
+                                state
+                                    .resumption
+                                    .iter()
+                                    .find(|r| r.resumption_id.reference().access()[..] == rec.rid[..])
+                                    .and_then(|r| state.fabrics.get(r.fab_idx).map(|f| (f.node_id(), r.peer_nodeid)))
+                            })
+                        });
+                        match (rec, found) {
+                            (None, _) | (Some(_), None) => "refused".to_string(),
+                            (Some(_), Some(_)) if full => "nospace".to_string(),
+                            (Some(rec), Some((dev_node, rec_node))) => {
+                                let attempt = {
+                                    let mut gb = g.borrow_mut();
+                                    gb.resume_attempts += 1;
+                                    gb.resume_attempts
+                                };
+                                let cfab_no = base.resume_ids.iter().position(|x| x.0 == rec_node).unwrap_or(0) as u8 + 1;
+                                let mut rid = CryptoSensitive::<16>::new();
+                                rid.load_from_array(&rec.rid);
+                                let mut secret = CanonPkcSharedSecret::new();
+                                secret.try_load_from_slice(&rec.secret).unwrap();
+                                let cfab = NonZeroU8::new(cfab_no).unwrap();
+                                ctl2.with_state(|state| {
+                                    state.resumption.insert_or_update(ResumableSession {
+                                        fab_idx: cfab,
+                                        peer_nodeid: dev_node,
+                                        peer_cat_ids: Default::default(),
+                                        resumption_id: rid,
+                                        shared_secret: secret,
+                                    });
+                                });
+                                let before = session_ids(&ctl2);
+                                // Sigma2_Resume goes out, then the peer's SigmaFinished is held back
+                                *hold.borrow_mut() = Hold { armed: true, peer: CTL2, need: 0x33, ..Default::default() };
+                                let ctl2_ref = &ctl2;
+                                let mut fut: HandshakeFut<'_> = Box::pin(e2e::with_timeout(20_000, case_handshake(ctl2_ref, cfab, dev_node, attempt)));
+                                // The device sends Sigma2_Resume reliably and goes on only when it is
+                                // acknowledged. The peer acknowledges it on its own (a stand-alone
+                                // acknowledgement, as a peer that is slow to answer does) and delivers
+                                // its SigmaFinished later: the stand-alone acknowledgement is made from
+                                // the held-back SigmaFinished (same exchange, same acknowledged counter,
+                                // next message counter, no payload).
+                                let mut acked = false;
+                                let window = async {
+                                    for _ in 0..3000 {
+                                        if !acked {
+                                            let first = hold.borrow().held.first().cloned();
+                                            if let Some(m) = first {
+                                                // plain header: flags, session id (2), security flags, counter (4),
+                                                // source node id (8) if flag 0x04; then the protocol header
+                                                let off = 8 + if m[0] & 0x04 != 0 { 8 } else { 0 } + match m[0] & 0x03 { 1 => 8, 2 => 2, _ => 0 };
+                                                if m.len() >= off + 10 && m[off] & 0x02 != 0 {
+                                                    let mut ack = m[..off + 10].to_vec();
+                                                    let ctr = u32::from_le_bytes([m[4], m[5], m[6], m[7]]).wrapping_add(1);
+                                                    ack[4..8].copy_from_slice(&ctr.to_le_bytes());
+                                                    ack[off] = (m[off] & 0x01) | 0x02; // initiator flag kept, A set, R cleared
+                                                    ack[off + 1] = 0x10; // MRP stand-alone acknowledgement
+                                                    net.inject(CTL2, DEV, &ack);
+                                                }
+                                                acked = true;
+                                            }
+                                        }
+                                        let slot = dev.with_state(|state| {
+                                            state.verif_sessions().iter().any(|s| {
+                                                let snap = s.verif_snapshot();
+                                                snap.reserved && matches!(snap.mode, SessionMode::Case { .. })
+                                            })
+                                        });
+                                        if slot && !hold.borrow().held.is_empty() {
+                                            return true;
+                                        }
+                                        embassy_time::Timer::after(embassy_time::Duration::from_millis(1)).await;
+                                    }
+                                    false
+                                };
+                                let outcome = select(fut.as_mut(), core::pin::pin!(window)).await;
+                                match outcome {
+                                    Either::Second(true) => {
+                                        let name = g.borrow().next_sid;
+                                        created_inc = Some(rec.inc);
+                                        pending = Some(Pending { resume: true, name, fut: Some(fut), rec_inc: rec.inc, ctl_before: before, ctl_rec: Some((cfab, dev_node)) });
+                                        "ok".to_string()
+                                    }
+                                    other => {
+                                        if std::env::var("C07_DEBUG").is_ok() {
+                                            let h = hold.borrow();
+                                            eprintln!("resume-begin {}: {:?} seen={} holding={} held={}", k, match &other { Either::First(r) => format!("{:?}", r.as_ref().map(|x| x.as_ref().map_err(|e| e.code()))), Either::Second(b) => format!("window {}", b) }, h.seen, h.holding, h.held.len());
+                                        }
+                                        drop(fut);
+                                        *hold.borrow_mut() = Hold::default();
+                                        settle(&dev, &ctl2, false).await;
+                                        remove_plaintext(&dev);
+                                        remove_plaintext(&ctl2);
+                                        ctl2.with_state(|state| state.resumption.remove_by_peer(cfab, dev_node));
+                                        "refused".to_string()
+                                    }
+                                }
+                            }
+                        }
+                    }
+                    Op::Finish => match pending.take() {
+                        None => "nopending".to_string(),
+                        Some(mut p) => {
+                            // the held-back message (one copy of it) reaches the device
+                            let (peer, first) = {
+                                let mut h = hold.borrow_mut();
+                                let first = h.held.first().cloned();
+                                let peer = h.peer;
+                                *h = Hold::default();
+                                (peer, first)
+                            };
+                            if let Some(bytes) = first {
+                                net.inject(peer, DEV, &bytes);
+                            }
+                            if let Some(fut) = p.fut.take() {
+                                let _ = e2e::with_timeout(5000, fut).await;
+                            }
+                            let cx2: &Matter<'_> = if p.resume { &ctl2 } else { &ctl };
+                            settle(&dev, cx2, false).await;
+                            remove_plaintext(&dev);
+                            remove_plaintext(cx2);
+                            if let Some((cfab, node)) = p.ctl_rec {
+                                ctl2.with_state(|state| state.resumption.remove_by_peer(cfab, node));
+                            }
+                            // did the slot become a live session?
+                            let dev_id = g.borrow().sess.iter().find(|(_, v)| v.0 == p.name).map(|(id, _)| *id);
+                            let live = dev_id
+                                .map(|id| dev.with_state(|state| state.verif_sessions().iter().any(|x| x.id() == id && !x.verif_snapshot().reserved)))
+                                .unwrap_or(false);
+                            if p.resume {
+                                let after = session_ids(&ctl2);
+                                if let Some(cid) = after.iter().find(|i| !p.ctl_before.contains(i)) {
+                                    g.borrow_mut().twin.insert(p.name, (1, *cid));
+                                }
+                                created_inc = Some(p.rec_inc);
+                            }
+                            if live {
+                                "ok".to_string()
+                            } else {
+                                "gone".to_string()
+                            }
+                        }
+                    },
                     Op::Persist => {
                         // the body of the loop of `Matter::run_persist_resumption`
                         let r = dev.with_state(|state| {
@@ -1524,6 +1821,16 @@ fn branch_cases() -> Vec<(&'static str, &'static str)> {
         ("21", "G1,G2,H2:9,Q4:5,Q6:5,B6,R2:2,R2:1"),
         // subscriptions survive a restart, the reporter finds nothing to purge
         ("21", "B2,B3,X,O,E0,R4:2,O,X"),
+        // a fabric disappears while one of its CASE handshakes is caught in its last step (reserved
+        // slot already `Case { fab_idx }`), then the handshake runs to completion
+        ("21", "e1,R2:2,D,Q4:5,A1,N1:2,Q4:6,S1"),
+        ("21", "E1,s1,R2:2,D,Q5:5,S2,A1,N1:2,Q5:6,S2"),
+        ("21", "A1,N1:2,e2,T,D,Q4:5,P,A5,N5:3,Q4:6,S1"),
+        ("21", "A1,N1:2,E2,s1,Z1,D,Q5:5,P,A6,N6:3,Q5:6,S2"),
+        ("21", "A1,N1:2,E2,s1,V2,D,Q5:5,S2"),
+        // ... and the same handshakes left alone, completed before the removal, refused while pending
+        ("21", "e1,D,Q4:5,E1,s2,D,Q6:5,R2:2"),
+        ("21", "e1,E0,S1,e0,D,D,s9,D,X,e0,X,D"),
         // nothing to do
         ("20", "T,X,T,O,F,S1,E3,H3:5,G0,Z2,V3"),
     ]
@@ -1550,6 +1857,113 @@ fn generate(tier: &str, seed: u64) -> Vec<String> {
         "A1,N1:2,E2,F,Z4,Q4:6,X,S1",
     ] {
         cases.push(format!("W {} 21 {}", nid(), ops));
+    }
+    // in-flight stream: a fabric is removed / rolled back while a full handshake or a resumption for
+    // it is caught in its last step; then the handshake completes, the old session / record is
+    // probed and the index is reused. Names are tracked exactly (2 fabrics, PASE session 1,
+    // administrator sessions 2 and 3).
+    let n_flight = if thorough { 4000 } else { 400 };
+    for _ in 0..n_flight {
+        let mut v: Vec<String> = Vec::new();
+        let mut next = 4u64; // next session name
+        let filler = |rng: &mut Rng, v: &mut Vec<String>, next: &mut u64| {
+            for _ in 0..rng.below(3) {
+                match rng.below(5) {
+                    0 => v.push("F".into()),
+                    1 => v.push("O".into()),
+                    2 => {
+                        v.push(format!("H1:{}", rng.pick(&[9u64, 10])));
+                        *next += 1;
+                    }
+                    3 => v.push(format!("Q2:{}", 1 + rng.below(9))),
+                    _ => v.push("G1".into()),
+                }
+                if v.last().map(|x| x == "G1").unwrap_or(false) {
+                    *next += 1;
+                }
+            }
+        };
+        let resume = rng.chance(1, 2);
+        let rollback = rng.chance(1, 2);
+        let complete_first = rng.chance(1, 5);
+        let slot; // name of the handshake's slot
+        if rollback {
+            // fabric 3 is being commissioned over PASE session 1
+            v.push("A1".into());
+            v.push(format!("N1:{}", 2 + rng.below(2)));
+            let root = v[1][3..].to_string();
+            filler(&mut rng, &mut v, &mut next);
+            if resume {
+                v.push(format!("E{}", root));
+                next += 1;
+                filler(&mut rng, &mut v, &mut next);
+                v.push("s1".into());
+            } else {
+                v.push(format!("e{}", root));
+            }
+            slot = next;
+            next += 1;
+            let removal = rng.pick(&["T", "Z1", "V1", "Z2", "V3", "R2:3", "R3:3"]).to_string();
+            if complete_first {
+                v.push("D".into());
+                filler(&mut rng, &mut v, &mut next);
+                v.push(removal);
+            } else {
+                filler(&mut rng, &mut v, &mut next);
+                v.push(removal);
+                filler(&mut rng, &mut v, &mut next);
+                v.push("D".into());
+            }
+            v.push(format!("Q{}:{}", slot, 1 + rng.below(9)));
+            v.push(format!("S{}", 1 + rng.below(2)));
+            // the index is handed out again
+            v.push("P".into());
+            let p = next;
+            next += 1;
+            v.push(format!("A{}", p));
+            v.push(format!("N{}:{}", p, 3));
+            v.push(format!("Q{}:{}", slot, 1 + rng.below(9)));
+            v.push(format!("S{}", 1 + rng.below(3)));
+            if rng.chance(1, 2) {
+                v.push("O".into());
+            }
+        } else {
+            // fabric 2 is removed by the administrator of fabric 1 (session 2) or by its own (3)
+            filler(&mut rng, &mut v, &mut next);
+            if resume {
+                v.push("E1".into());
+                next += 1;
+                filler(&mut rng, &mut v, &mut next);
+                v.push("s1".into());
+            } else {
+                v.push("e1".into());
+            }
+            slot = next;
+            next += 1;
+            let removal = rng.pick(&["R2:2", "R2:2", "R3:2", "R1:2"]).to_string();
+            if complete_first {
+                v.push("D".into());
+                filler(&mut rng, &mut v, &mut next);
+                v.push(removal);
+            } else {
+                filler(&mut rng, &mut v, &mut next);
+                v.push(removal);
+                filler(&mut rng, &mut v, &mut next);
+                v.push("D".into());
+            }
+            v.push(format!("Q{}:{}", slot, 1 + rng.below(9)));
+            v.push(format!("S{}", 1 + rng.below(2)));
+            v.push("A1".into());
+            v.push(format!("N1:{}", 2 + rng.below(2)));
+            v.push(format!("Q{}:{}", slot, 1 + rng.below(9)));
+            v.push(format!("S{}", 1 + rng.below(3)));
+            if rng.chance(1, 2) {
+                v.push("X".into());
+                v.push(format!("S{}", 1 + rng.below(3)));
+            }
+        }
+        let _ = next;
+        cases.push(format!("S {} 21 {}", nid(), v.join(",")));
     }
     // random sequences of <= 25 operations; a light-weight picture of the node steers them
     // towards meaningful sessions and indices (the model decides what really happens)
@@ -1589,7 +2003,20 @@ fn generate(tier: &str, seed: u64) -> Vec<String> {
         while (v.len() as u64) < len {
             let s = if rng.chance(1, 6) { 1 + rng.below(nsess + 1) } else if rng.chance(1, 3) { last_pase } else { 2 + rng.below(nsess.max(2) - 1) };
             let can_create = created < 9;
-            let t = match rng.below(48) {
+            let t = match rng.below(53) {
+                48 if can_create => {
+                    nsess += 1;
+                    created += 1;
+                    nrec += 1;
+                    format!("e{}", rng.below(5))
+                }
+                49 | 50 if can_create && nrec > 0 => {
+                    nsess += 1;
+                    created += 1;
+                    nrec += 1;
+                    format!("s{}", 1 + rng.below(nrec))
+                }
+                51 | 52 => "D".to_string(),
                 0..=3 => format!("A{}", s),
                 4..=7 => format!("N{}:{}", s, rng.below(4)),
                 8 => format!("U{}", s),
